@@ -12,7 +12,8 @@ using namespace mc;
 using refisa::Machine; using refisa::Env;
 static Ctx ctx;
 
-static const uint8_t ALPHA[] = {0x05, 0x0F, 0x19, 0x63, 0x72, 0x31, 0x42, 0xD1, 0xD2, 0xE1, 0xE3, 0x26, 0x81, 0xA1, 0xB1, 0x91, 0x50, 0xD3, 0x00, 0x01, 0x3F, 0x4F, 0x60, 0x70};
+static const uint8_t ALPHA[] = {0x05, 0x0F, 0x19, 0x63, 0x72, 0x31, 0x42, 0xD1, 0xD2, 0xE1, 0xE3, 0x26, 0x81, 0xA1, 0xB1, 0x91, 0x50, 0xD3, 0x00, 0x01, 0x3F, 0x4F, 0x60, 0x70,
+                                0xFF, 0x6E, 0x7F, 0x8D};   // NFIX 15 and indexed accesses with operands that become negative after it (addresses that rely on 32-bit wrap-around)
 static const int NA = sizeof(ALPHA);
 static const std::vector<std::string> EPI = {std::string("\x22\x30\xD3", 3), std::string("\x22\x31\xD3\x30\xD3", 5), std::string("\x32\xD3\x01\x22\x30\xD3", 6)};
 static const std::vector<std::string> INPUTS = {std::string(""), std::string("A"), std::string("\xff\x01", 2)};
